@@ -138,6 +138,7 @@ func main() {
 			}
 		}
 	}
+	c.R.CheckpointPath = *out
 	ck.run(c)
 	c.R.Count("worker_wall_ms", time.Since(t0).Milliseconds())
 	if *out != "" {
